@@ -16,7 +16,7 @@
 (***************************************************************************)
 EXTENDS Naturals, Sequences, FiniteSets, TLC, Json, IOUtils, Catalogue, NameTokens
 
-VARIABLES l,       \* next line to consume
+VARIABLES tpos,       \* next line to consume
           inst,    \* id -> [type, class]              live instances
           perm,    \* class -> set of <<plain, cipher>> learned partial bijection
           lanes,   \* <<class, dir, block>> seen as a lane of a multi-block call      (obligation)
@@ -24,15 +24,15 @@ VARIABLES l,       \* next line to consume
           names,   \* type -> Debug text seen so far (key independence)
           zimgs    \* storage images of the current zeroize run
 
-vars == <<l, inst, perm, lanes, seen1, names, zimgs>>
+vars == <<tpos, inst, perm, lanes, seen1, names, zimgs>>
 
 Rec == ndJsonDeserialize(IOEnv.TRACE)
 N == Len(Rec)
 
-Init == /\ l = 1 /\ inst = <<>> /\ perm = <<>> /\ lanes = {} /\ seen1 = {} /\ names = <<>> /\ zimgs = <<>>
+Init == /\ tpos = 1 /\ inst = <<>> /\ perm = <<>> /\ lanes = {} /\ seen1 = {} /\ names = <<>> /\ zimgs = <<>>
 
 \* an event tagged `known` by the runner (known_findings.json) is only consumed by KnownFinding
-IsEvent(k) == l <= N /\ Rec[l].ev = k /\ "known" \notin DOMAIN Rec[l] /\ l' = l + 1
+IsEvent(k) == tpos <= N /\ Rec[tpos].ev = k /\ "known" \notin DOMAIN Rec[tpos] /\ tpos' = tpos + 1
 
 Put(f, k, v) == [x \in (DOMAIN f) \cup {k} |-> IF x = k THEN v ELSE f[x]]
 Del(f, k) == [x \in (DOMAIN f) \ {k} |-> f[x]]
@@ -49,7 +49,7 @@ Expected(e) ==
 
 New ==
     /\ IsEvent("new")
-    /\ LET e == Rec[l] IN
+    /\ LET e == Rec[tpos] IN
        /\ e.type \in TypeNames
        /\ e.via \in {"new", "checked"} => Len(e.key) = ArrayKeyLen(e.type)
        /\ e.out = Expected(e)                       \* never "panic" (C11, C20)
@@ -60,12 +60,12 @@ New ==
 
 WeakTest ==
     /\ IsEvent("weak")
-    /\ LET e == Rec[l] IN e.out = (IF Weak(e.type, e.key) THEN "weak" ELSE "ok")
+    /\ LET e == Rec[tpos] IN e.out = (IF Weak(e.type, e.key) THEN "weak" ELSE "ok")
     /\ UNCHANGED <<inst, perm, lanes, seen1, names, zimgs>>
 
 Clone ==
     /\ IsEvent("clone")
-    /\ LET e == Rec[l] IN
+    /\ LET e == Rec[tpos] IN
        /\ e.out = "ok"
        /\ e.src \in DOMAIN inst
        /\ Cloneable(inst[e.src].type)
@@ -74,7 +74,7 @@ Clone ==
 
 From ==
     /\ IsEvent("from")
-    /\ LET e == Rec[l] IN
+    /\ LET e == Rec[tpos] IN
        /\ e.out = "ok"
        /\ e.src \in DOMAIN inst
        /\ e.to \in ConvTargets(inst[e.src].type)
@@ -84,14 +84,14 @@ From ==
 
 Drop ==
     /\ IsEvent("drop")
-    /\ Rec[l].out = "ok"
-    /\ inst' = IF Rec[l].id \in DOMAIN inst THEN Del(inst, Rec[l].id) ELSE inst
+    /\ Rec[tpos].out = "ok"
+    /\ inst' = IF Rec[tpos].id \in DOMAIN inst THEN Del(inst, Rec[tpos].id) ELSE inst
     /\ UNCHANGED <<perm, lanes, seen1, names, zimgs>>
 
 \* --------------------------------------------------------- single blocks
 One(dir) ==
     /\ IsEvent(dir)
-    /\ LET e == Rec[l] IN
+    /\ LET e == Rec[tpos] IN
        /\ e.outcome = "ok"                          \* totality (C20)
        /\ e.id \in DOMAIN inst
        /\ LET t == inst[e.id].type
@@ -120,7 +120,7 @@ AllFill(blocks, v) == \A j \in 1..Len(blocks) : \A i \in 1..Len(blocks[j]) : blo
 
 Blocks ==
     /\ IsEvent("blocks")
-    /\ LET e == Rec[l] IN
+    /\ LET e == Rec[tpos] IN
        /\ e.outcome = "ok"
        /\ e.id \in DOMAIN inst
        /\ e.guard_bad = 0                           \* nothing outside the designated output is written
@@ -148,7 +148,7 @@ Blocks ==
 \* ------------------------------------------------------ BelT wide block
 WBlock ==
     /\ IsEvent("wblock")
-    /\ LET e == Rec[l]
+    /\ LET e == Rec[tpos]
            c == <<"wblock", e.key, e.len>>
            pt == IF e.dir = "enc" THEN e.in ELSE e.out
            ct == IF e.dir = "enc" THEN e.out ELSE e.in
@@ -192,7 +192,7 @@ NameOk(t, text, toks) ==
 
 Debug ==
     /\ IsEvent("debug")
-    /\ LET e == Rec[l] IN
+    /\ LET e == Rec[tpos] IN
        IF e.outcome = "absent" THEN UNCHANGED names       \* the type has no Debug impl (compile-time fact)
        ELSE /\ e.outcome = "ok"
             /\ NameOk(e.type, e.text, DebugTokens)
@@ -202,7 +202,7 @@ Debug ==
 
 AlgName ==
     /\ IsEvent("algname")
-    /\ LET e == Rec[l] IN
+    /\ LET e == Rec[tpos] IN
        IF e.outcome = "absent" THEN TRUE
        ELSE e.outcome = "ok" /\ NameOk(e.type, e.text, AlgTokens)
     /\ UNCHANGED <<inst, perm, lanes, seen1, names, zimgs>>
@@ -210,9 +210,9 @@ AlgName ==
 \* ----------------------------------------------------------------- erasure
 ZImg ==
     /\ IsEvent("zimg")
-    /\ Rec[l].outcome = "ok"
-    /\ Len(Rec[l].before) = Rec[l].size /\ Len(Rec[l].after) = Rec[l].size
-    /\ zimgs' = Append(zimgs, [ki |-> Rec[l].ki, before |-> Rec[l].before, after |-> Rec[l].after])
+    /\ Rec[tpos].outcome = "ok"
+    /\ Len(Rec[tpos].before) = Rec[tpos].size /\ Len(Rec[tpos].after) = Rec[tpos].size
+    /\ zimgs' = Append(zimgs, [ki |-> Rec[tpos].ki, before |-> Rec[tpos].before, after |-> Rec[tpos].after])
     /\ UNCHANGED <<inst, perm, lanes, seen1, names>>
 
 \* an offset is key-dependent iff it is the same for all images of one key (deterministic, not the fill
@@ -222,13 +222,15 @@ KeyDep(o) == Stable(o) /\ \E a, b \in 1..Len(zimgs) : zimgs[a].before[o] # zimgs
 KeyDepSet == IF zimgs = <<>> THEN {} ELSE {o \in 1..Len(zimgs[1].before) : KeyDep(o)}
 ZEnd ==
     /\ IsEvent("zend")
-    /\ LET K == KeyDepSet IN
-       IF Rec[l].zeroize
-       THEN /\ K # {}                                    \* vacuity guard: the instance does hold key material
-            /\ \A a \in 1..Len(zimgs) : \A o \in K : zimgs[a].after[o] = 0
-       ELSE \* control build without the feature: key material must survive (shows the probe sees it)
-            /\ K # {}
-            /\ \E a \in 1..Len(zimgs) : \E o \in K : zimgs[a].after[o] # 0
+    /\ LET K == KeyDepSet
+           \* vacuity guard: an instance built from a non-empty key does hold key material
+           seen == (Rec[tpos].klen > 0) => (K # {})
+       IN IF Rec[tpos].zeroize
+          THEN /\ seen
+               /\ \A a \in 1..Len(zimgs) : \A o \in K : zimgs[a].after[o] = 0
+          ELSE \* control build without the feature: key material must survive (shows the probe sees it)
+               /\ seen
+               /\ (Rec[tpos].klen > 0) => \E a \in 1..Len(zimgs) : \E o \in K : zimgs[a].after[o] # 0
     /\ zimgs' = <<>>
     /\ UNCHANGED <<inst, perm, lanes, seen1, names>>
 
@@ -247,16 +249,16 @@ End ==
 
 Marker ==
     /\ IsEvent("marker")
-    /\ Rec[l].send /\ Rec[l].sync                        \* cipher values are Send + Sync (C15)
+    /\ Rec[tpos].send /\ Rec[tpos].sync                        \* cipher values are Send + Sync (C15)
     /\ UNCHANGED <<inst, perm, lanes, seen1, names, zimgs>>
 
 \* events of other layers (checked by the L2 conformance specs) and pure bookkeeping
 Ignored == {"haz", "bc", "raw", "send", "eval"}
-Skip == l <= N /\ Rec[l].ev \in Ignored /\ "known" \notin DOMAIN Rec[l] /\ l' = l + 1
+Skip == tpos <= N /\ Rec[tpos].ev \in Ignored /\ "known" \notin DOMAIN Rec[tpos] /\ tpos' = tpos + 1
         /\ UNCHANGED <<inst, perm, lanes, seen1, names, zimgs>>
 
 \* a recorded, known defect (known_findings.json): consumed without judging it, state unchanged
-KnownFinding == l <= N /\ "known" \in DOMAIN Rec[l] /\ l' = l + 1
+KnownFinding == tpos <= N /\ "known" \in DOMAIN Rec[tpos] /\ tpos' = tpos + 1
                 /\ UNCHANGED <<inst, perm, lanes, seen1, names, zimgs>>
 
 Next == \/ New \/ WeakTest \/ Clone \/ From \/ Drop \/ One("enc") \/ One("dec") \/ Blocks \/ WBlock
